@@ -21,11 +21,12 @@ type Evidence struct {
 }
 
 type allegReq struct {
-	id      string
-	target  *world.Validator
-	plan    string // guilty | innocent | stall
-	created int64
-	voted   map[string]bool
+	restaked bool
+	id       string
+	target   *world.Validator
+	plan     string // guilty | innocent | stall
+	created  int64
+	voted    map[string]bool
 }
 
 func (e *Evidence) Name() string { return "evidence" }
@@ -126,7 +127,7 @@ func (e *Evidence) Plan(c *Ctx) []hist.TxSpec {
 	}
 	for _, r := range e.reqs {
 		age := c.H - r.created
-		if age < 1 || age > 6 {
+		if age < 1 || age > 27 {
 			continue
 		}
 		choice := evact.AllegationVote{}.Choice
@@ -156,15 +157,17 @@ func (e *Evidence) Plan(c *Ctx) []hist.TxSpec {
 				out = append(out, Build(c, "UNSTAKE", &staking.Unstake{ValidatorAddress: v.ValAddr, StakeAddress: v.Stake.Addr, Stake: txb.Amt("OLT", "10")}, "unstake while frozen (must fail)", &v.Stake, ConsAccount(v)))
 				out = append(out, Build(c, "WITHDRAW", &staking.Withdraw{ValidatorAddress: v.ValAddr, StakeAddress: v.Stake.Addr, Stake: txb.Amt("OLT", "1")}, "withdraw while frozen (must fail)", &v.Stake, ConsAccount(v)))
 			}
-		case 5:
+		case 5, 8, 11, 14, 17, 20, 23, 26:
+			// (asked for again every few blocks while it is refused: the configured release time may not be over)
 			if r.plan == "guilty" && Susp(c.S, r.target.ValAddr.String()).IsFrozen() {
 				v := r.target
 				sp := Build(c, "RELEASE", &evact.Release{ValidatorAddress: v.ValAddr}, "release of the guilty validator", ConsAccount(v))
 				sp.Meta = map[string]string{"validator": v.ValAddr.String()}
 				out = append(out, sp)
 			}
-		case 6:
-			if r.plan == "guilty" && !Susp(c.S, r.target.ValAddr.String()).IsFrozen() {
+		case 6, 9, 12, 15, 18, 21, 24, 27:
+			if r.plan == "guilty" && !r.restaked && !Susp(c.S, r.target.ValAddr.String()).IsFrozen() {
+				r.restaked = true
 				v := r.target
 				out = append(out, Build(c, "STAKE", StakeMsg(v, "1500000"), "stake again after release", &v.Stake, ConsAccount(v)))
 			}
